@@ -25,6 +25,10 @@ RULE = ("cases drawn from one PRNG (VERIF_SEED), one fresh file each; files hold
         "more than ten dimension variables (fakeDim1 vs fakeDim10 ...); every DFSD read is repeated into a caller's array "
         "that is larger than the dataset by 0-3 in each dimension, through DFSDgetdata(maxsizes) | DFSDgetslice | "
         "DFSDreadslab, and every DFR8getimage into a larger xdim/ydim: same values at the array's strides, rest untouched; "
+        "(dfsdseq) sessions of the single-file SDS writer given call by call - DFSDsetdims (new or the same), DFSDsetNT, "
+        "DFSDsetdimscale (a scale or NULL), DFSDsetdatastrs, DFSDsetdimstrs, DFSDsetrange, DFSDadddata, DFSDclear - with no "
+        "reset the sequence does not contain, steered towards set/write/remove/write and set/write/write; the raster "
+        "writers likewise call DFR8setpalette / DF24setil only when the setting in effect changes; "
         "(sds) 1-6 datasets of rank 1-4, extents 1-5, "
         "every 8/16/32-bit integer, char and float32/64 type in standard, little-endian and native flavour, optional "
         "unlimited first dimension, written by DFSDadddata | SDcreate+SDwritedata | nccreate/ncdimdef/ncvardef/ncvarput "
@@ -199,7 +203,17 @@ def gen_img(r):
                     "pal": rbytes(r, 768) if pal else None})
     pre = r.choice([0, 0, 1, 2])
     edits = sorted(r.sample(range(n), r.randrange(1, n + 1))) if (w == "gr" and r.random() < 0.6) else []
-    return {"kind": "img", "w": w, "pre": pre, "edits": edits, "pad": gen_pad(r) & 15, "ril": r.choice([-1, 0, 1, 2]), "objs": ims}
+    lazy = 0
+    if w == "df" and r.random() < 0.6:
+        # the palette / interlace set for one image stays in effect: consecutive images often share it and the writer
+        # then makes no call for it
+        lazy = 1 << 14
+        for a, b in zip(ims, ims[1:]):
+            if r.random() < 0.5 and a["nc"] == 1 and b["nc"] == 1:
+                b["pal"] = a["pal"]
+            if r.random() < 0.5 and a["nc"] == 3 and b["nc"] == 3:
+                b["il"] = a["il"]
+    return {"kind": "img", "w": w, "pre": pre, "edits": edits, "pad": (gen_pad(r) & 15) | lazy, "ril": r.choice([-1, 0, 1, 2]), "objs": ims}
 
 
 def gen_rawsds(r):
@@ -238,6 +252,88 @@ def gen_rawimg(r):
                     "data": rbytes(r, x * y * nc),
                     "pal": rbytes(r, 768) if (nc == 1 and (sticky or r.random() < 0.5)) else None})
     return {"kind": "rawimg", "form": form, "ril": r.choice([-1, 0]), "objs": ims}
+
+
+def gen_dfsdseq(r):
+    """a session of the single-file SDS writer: settings stay in effect between datasets unless a call changes them;
+    no reset is issued that the sequence does not contain.  A light shadow (which dimensions have a scale) only steers
+    the generator towards 'set, write, remove, write' and 'set, write, write' motifs."""
+    ops = []
+    dims, nt = None, None
+    scaled = set()
+
+    def setdims():
+        nonlocal dims
+        rank = r.choice([1, 2, 2, 3])
+        nd = [r.choice([1, 2, 3, 4]) for _ in range(rank)]
+        if nd != dims:
+            scaled.clear()
+        dims = nd
+        ops.append(["D", str(rank)] + [str(x) for x in dims])
+
+    def setnt():
+        nonlocal nt
+        n2 = r.choice(list(BASES)) | r.choice([0, 0, 0, 0x4000])
+        if n2 != nt:
+            scaled.clear()
+        nt = n2
+        ops.append(["N", str(nt)])
+
+    def add():
+        ne = 1
+        for x in dims:
+            ne *= x
+        ops.append(["A", hexs(rbytes(r, ne * BASES[nt & 255]))])
+    setdims()
+    setnt()
+    hs = lambda b: hexs(b) if b else "_"
+    nadd = 0
+    want = r.choice([2, 3, 3, 4, 5])
+    while nadd < want and len(ops) < 60:
+        a = r.random()
+        wd = BASES[nt & 255]
+        if a < 0.30:
+            d = r.randrange(len(dims))
+            if r.random() < 0.65:
+                ops.append(["S", str(d), hexs(rbytes(r, dims[d] * wd))])
+                scaled.add(d)
+            else:
+                ops.append(["S", str(d), "-"])       # NULL: remove the scale
+                scaled.discard(d)
+        elif a < 0.40:
+            ops.append(["T", hs(rstr(r)), hs(rstr(r) if r.random() < 0.7 else []), hs(rstr(r) if r.random() < 0.7 else [])])
+        elif a < 0.50:
+            ops.append(["X", str(r.randrange(len(dims))), hs(rstr(r)), hs(rstr(r) if r.random() < 0.7 else []), hs([])])
+        elif a < 0.56:
+            ops.append(["R", hexs(rbytes(r, wd)), hexs(rbytes(r, wd))])
+        elif a < 0.62:
+            if r.random() < 0.5:
+                ops.append(["D", str(len(dims))] + [str(x) for x in dims])     # the same dimensions again: nothing changes
+            else:
+                setdims()
+        elif a < 0.66:
+            setnt()
+        elif a < 0.69:
+            ops.append(["C"])
+            scaled.clear()
+            dims = None
+            setdims()
+            nt = None
+            setnt()
+        else:
+            add()
+            nadd += 1
+            if scaled and r.random() < 0.5:
+                # a written dataset had scales: remove one (or keep all) and write the next dataset right away
+                if r.random() < 0.7:
+                    d = r.choice(sorted(scaled))
+                    ops.append(["S", str(d), "-"])
+                    scaled.discard(d)
+                if r.random() < 0.3:
+                    ops.append(["D", str(len(dims))] + [str(x) for x in dims])
+                add()
+                nadd += 1
+    return {"kind": "dfsdseq", "w": "dfsd", "ops": ops}
 
 
 def gen_pal(r):
@@ -325,6 +421,8 @@ def emit(cid, c):
         return " ".join(t)
     if k == "legacy":
         return "%s legacy %s" % (cid, c["path"])
+    if k == "dfsdseq":
+        return "%s dfsdseq %d %s" % (cid, len(c["ops"]), " ".join(" ".join(o) for o in c["ops"]))
     if k == "rawsds":
         t = ["%s rawsds %s %d" % (cid, c["form"], len(c["objs"]))]
         for d in c["objs"]:
@@ -399,6 +497,18 @@ def parse_case(line):
         return cid, {"kind": "ann", "w": w, "objs": objs}
     if k == "legacy":
         return cid, {"kind": "legacy", "path": nx()}
+    if k == "dfsdseq":
+        n = int(nx())
+        ops = []
+        arity = {"N": 1, "S": 2, "T": 3, "X": 4, "R": 2, "A": 1, "C": 0}
+        for _ in range(n):
+            o = nx()
+            if o == "D":
+                rk = nx()
+                ops.append(["D", rk] + [nx() for _ in range(int(rk))])
+            else:
+                ops.append([o] + [nx() for _ in range(arity[o])])
+        return cid, {"kind": "dfsdseq", "w": "dfsd", "ops": ops}
     if k == "rawsds":
         form = nx()
         n = int(nx())
@@ -467,7 +577,7 @@ def run_cases(ctx, cases, tag):
     with open(p2, "w") as fh:
         for cid, c in cases:
             recs = [t for t in (l.split() for l in Rd.get(cid, []) if l.startswith("rec ")) if len(t) == 6 and t[4].lstrip("-").isdigit()]
-            if recs and c["kind"] in ("sds", "img", "legacy", "pal"):
+            if recs and c["kind"] in ("sds", "img", "legacy", "pal", "dfsdseq"):
                 fh.write("%s recs %d %s\n" % (cid, len(recs), " ".join("%s %s %s %s" % ((t[1], t[2], t[4], t[5]) if re.fullmatch(r"[0-9a-f]+|-", t[5]) else (t[1], t[2], "1", "-"))
                                                                      for t in recs)))
     rcm, M = vc.run_lines(mod, p2, timeout=900)
@@ -491,6 +601,11 @@ def compare(c, R, S):
     crash = [l for l in R if l.startswith("crash")]
     if crash:
         return ["library crashed: " + crash[0]], 0
+    if c["kind"] == "img" and (c.get("pad", 0) >> 14) & 1:
+        # a palette that stays in effect for several images is stored once: DFPnpals counts it once while DFPgetpal
+        # meets it once per image; the palette calls are compared only when every image got its own palette
+        r = [l for l in r if not l.startswith("dfp ")]
+        s = [l for l in s if not l.startswith("dfp ")]
     named = set(" ".join(l.split()[:4]) for l in s if l.startswith("sdmeta ") and l.split()[2] == "dname")
     r = [l for l in r if not (l.startswith("sdmeta ") and l.split()[2] == "dname" and " ".join(l.split()[:4]) not in named)]
     if c["kind"] == "sds" and len(set(o["dims"][0] for o in c["objs"] if o["unl"])) > 1:
@@ -609,6 +724,13 @@ def compare_legacy(R):
 # --------------------------------------------------------------------------------------------
 def shrinks(c):
     """smaller variants of a case"""
+    if c["kind"] == "dfsdseq":
+        for i, o in enumerate(c["ops"]):
+            if o[0] in ("S", "T", "X", "R", "A") and not (o[0] == "A" and sum(1 for x in c["ops"] if x[0] == "A") <= 1):
+                d = dict(c)
+                d["ops"] = c["ops"][:i] + c["ops"][i + 1:]
+                yield d
+        return
     if c["kind"] not in ("sds", "img", "pal", "ann", "rawsds", "rawimg"):
         return
     objs = c["objs"]
@@ -690,21 +812,22 @@ def shrink(ctx, c, limit=25):
 # --------------------------------------------------------------------------------------------
 # known findings: signatures computed from the failing case itself
 # --------------------------------------------------------------------------------------------
-def signature(c, bad):
+def signature(c, bad, S=None):
     """'gr-reads-nonpixel-interlaced-rig': every disagreement is the GR view of a 24-bit image that DF24 stored with
     line or component interlace (GRreadimage takes the stored bytes for pixel-interlaced data)"""
-    if c["kind"] in ("sds", "rawsds") and c.get("w", "dfsd") == "dfsd":
+    if c["kind"] in ("sds", "rawsds", "dfsdseq") and c.get("w", "dfsd") == "dfsd":
         # 'sd-drops-strings-of-unscaled-old-dimension': every disagreement is the SD view of the label/unit/format of a
-        # dimension of an old-style (DFSD-written) dataset that has strings but no scale
+        # dimension of an old-style (DFSD-written) dataset that has strings but no scale (decided on what the
+        # specification expects for that dimension)
+        exp = set(S or [])
         ok = bool(bad)
         for b in bad:
-            m = re.match(r"^(expected|library)\s+sdmeta (\d+) dstrs (\d+) ", b)
+            m = re.match(r"^(expected|library)\s+sdmeta (\d+) dstrs (\d+) (.*)$", b)
             if not m:
                 ok = False
                 break
-            k_, i_ = int(m.group(2)), int(m.group(3))
-            o = c["objs"][k_] if k_ < len(c["objs"]) else None
-            if not (o and i_ < len(o["dims"]) and o["dstrs"][i_] and not o["scales"][i_]):
+            if "sdmeta %s scale %s none" % (m.group(2), m.group(3)) not in exp or \
+                    ("sdmeta %s dstrs %s - - -" % (m.group(2), m.group(3))) in exp:
                 ok = False
                 break
         if ok:
@@ -726,7 +849,7 @@ def report(ctx, cid, c, R, S, bad, M=None):
            "# run: bin/check C15 --replay <this file>", emit(cid, c)]
     txt += ["# " + b for b in bad[:12]]
     ctx.violation("interfaces disagree on a %s case (%s): %s" % (c["kind"], c.get("w", ""), bad[0][:160]), "\n".join(txt),
-                  found=True, signature=signature(c, bad))
+                  found=True, signature=signature(c, bad, S))
 
 
 def run(ctx):
@@ -748,6 +871,8 @@ def run(ctx):
         cases.append(("p%d" % i, gen_pal(r)))
     for i in range(40 * nq):
         cases.append(("a%d" % i, gen_ann(r)))
+    for i in range(60 * nq):
+        cases.append(("q%d" % i, gen_dfsdseq(r)))
     for i in range(25 * nq):
         cases.append(("rs%d" % i, gen_rawsds(r)))
     for i in range(25 * nq):
@@ -763,7 +888,9 @@ def run(ctx):
              "gr_files_with_group_less_image_before_group_image": 0, "objects_per_file": {},
              "dimensions_with_strings": 0, "named_dimensions": 0, "files_with_prefix_related_dimension_names": 0,
              "files_with_more_than_ten_dimension_variables": 0, "reads_into_larger_array": {"DFSDgetdata": 0, "DFSDgetslice": 0,
-             "DFSDreadslab": 0, "DFR8getimage": 0}, "larger_in_non_leading_dimension": 0}
+             "DFSDreadslab": 0, "DFR8getimage": 0}, "larger_in_non_leading_dimension": 0,
+             "writer_sessions": 0, "session_ops": {}, "sessions_scale_removed_between_datasets": 0,
+             "sessions_scale_kept_between_datasets": 0, "lazy_raster_writers": 0}
     nviol = 0
     for cid, c in cases:
         R, S = Rd.get(cid, []), Sd.get(cid, [])
@@ -797,8 +924,27 @@ def run(ctx):
                 stats["reads_into_larger_array"][("DFSDgetdata", "DFSDgetslice", "DFSDreadslab", "DFSDgetdata")[(c["pad"] >> 12) & 3]] += 1
                 if any(((c["pad"] >> (2 * i)) & 3) and i < len(o["dims"]) for o in c["objs"] for i in range(1, 4)):
                     stats["larger_in_non_leading_dimension"] += 1
-        if k == "img" and c.get("pad"):
+        if k == "img" and c.get("pad", 0) & 15:
             stats["reads_into_larger_array"]["DFR8getimage"] += 1
+        if k == "img" and (c.get("pad", 0) >> 14) & 1:
+            stats["lazy_raster_writers"] += 1
+        if k == "dfsdseq":
+            stats["writer_sessions"] += 1
+            have, wrote, rem, kept = set(), False, False, False
+            for o in c["ops"]:
+                stats["session_ops"][o[0]] = stats["session_ops"].get(o[0], 0) + 1
+                if o[0] == "S" and o[2] != "-":
+                    have.add(o[1])
+                elif o[0] == "S":
+                    rem = rem or (wrote and o[1] in have)
+                    have.discard(o[1])
+                elif o[0] == "A":
+                    kept = kept or (wrote and bool(have))
+                    wrote = bool(have)
+                elif o[0] in ("C", "N") or o[0] == "D":
+                    pass
+            stats["sessions_scale_removed_between_datasets"] += 1 if rem else 0
+            stats["sessions_scale_kept_between_datasets"] += 1 if kept else 0
         stats["metadata_lines_compared"] += sum(1 for l in R if l.startswith(("sdmeta ", "dfsdmeta ")))
         for o in c.get("objs", []):
             if k in ("sds", "rawsds") and o.get("scales"):
@@ -817,7 +963,7 @@ def run(ctx):
         ctx.case(emit("", c), nv >= 2, sample={"case": emit(cid, c)[:160], "library": observed(R)[:4]}
                  if len(ctx.coverage["samples"]) < 4 and nv >= 2 else None)
         if bad and nviol < 3:
-            sig = signature(c, bad)
+            sig = signature(c, bad, S)
             if sig is not None and ctx.match_known(sig) is not None:
                 ctx.violation("known finding", "", found=True, signature=sig)
                 continue
@@ -883,6 +1029,8 @@ def model_disagreements(c, R, M):
                 return False
             b.remove(hit)
         return True
+    if k == "dfsdseq":
+        k = "sds"
     if k in ("sds", "legacy"):
         rd, md = sds_keys("dfsd", R, False), sds_keys("dfsdm", M, True)
         if k == "legacy":
@@ -936,7 +1084,7 @@ def run_models(ctx, cases, Rd, Md):
     n, nbad, nrec = 0, 0, 0
     for cid, c in cases:
         M = Md.get(cid)
-        if M is None or c["kind"] not in ("sds", "img", "legacy"):
+        if M is None or c["kind"] not in ("sds", "img", "legacy", "dfsdseq"):
             continue
         n += 1
         nrec += sum(1 for l in M if l.startswith("wm "))
@@ -971,7 +1119,7 @@ def replay(ctx, path):
                 print("%s %s" % (mark, x[:200]))
         for x in Md.get(cid, []):
             print("  M: " + x[:200])
-        if c["kind"] in ("sds", "img", "legacy") and cid in Md:
+        if c["kind"] in ("sds", "img", "legacy", "dfsdseq") and cid in Md:
             for b in model_disagreements(c, R, Md[cid]):
                 print("R/M DISAGREES: " + b[:300])
                 rcode = 1
